@@ -13,7 +13,7 @@ LEVEL_TEXT = ("calc_duration is compared with (end-start) mod 1440 rendered H:MM
 RULE = ("pairs (start, end) of HH:MM strings; thorough: all 2,073,600; quick: all pairs with start or end in {00:00,00:01,"
         "11:59,12:00,12:01,23:58,23:59} or |end-start| <= 1 (mod 1440) plus Hypothesis pairs. Non-trivial = end <= start "
         "(wrap or zero); distinct by (start, end)."
-        ' Also: boundary rows repeated on DST-change days of 5 other host zones, and SwitcherSchedule objects built repeatedly with a re-used slot id.')
+        ' Also: boundary rows repeated on DST-change days of 5 other host zones, and SwitcherSchedule objects built repeatedly with a re-used slot id; the two texts handed over as str-subclass instances and (str, Enum) members (text-forms); 70 000 (thorough 300 000) distinct pairs in one process followed by the first ones again (many-distinct).')
 ASSUMPTIONS = ["the result must not depend on the host zone or date: boundary rows are repeated on DST-change days of 5 other host zones (time_machine)", "format H:MM:SS = str(timedelta) of whole minutes, hours not zero-padded, as the statement says"]
 
 EDGE = [0, 1, 719, 720, 721, 1438, 1439]
@@ -70,6 +70,49 @@ def _body_rows(rep, case, sub="rows"):
             one(rep, sub, calc, s, e, case.get("ctx"))
 
 
+def body_forms(rep, case):
+    """The two texts handed over as instances of a str subclass / members of a (str, Enum) class: same duration."""
+    from .. import gen
+    calc = _calc()
+    s_, e_, form = case["start"], case["end"], case["form"]
+    rep.tick("text-forms", key=(s_, e_, form), nontrivial=True, sample=case, labels=(f"form={form}",))
+    try:
+        got = calc(gen.text_form(hhmm(s_), form), gen.text_form(hhmm(e_), form))
+    except Exception as exc:
+        raise Violation(f"C14/raises-for-{form}", case, expected(s_, e_), f"{type(exc).__name__}: {exc}")
+    if got != expected(s_, e_):
+        raise Violation(f"C14/duration-mismatch/{form}", case, expected(s_, e_), got)
+
+
+def cases_forms():
+    from .. import gen
+    out = []
+    for form in gen.TEXT_FORMS:
+        for k in range(0, 1440, 37):
+            for e in (0, (k * 7 + 11) % 1440, k, (k - 1) % 1440, 1439):
+                out.append({"start": k, "end": e, "form": form})
+    return out
+
+
+def body_many_distinct(rep, case):
+    """More distinct pairs than any small table holds, in ONE process, then the first ones again."""
+    calc = _calc()
+    n, again = case["n"], case["again"]
+    step = case.get("step", 7919)           # walk the 2,073,600 pairs with a stride coprime to it: no repeats before n
+    rep.label("distinct-pairs-in-one-process", n)
+    for phase, count in (("first-pass", n), ("again", again)):
+        idx = case.get("offset", 0)
+        for k in range(count):
+            s_, e_ = divmod(idx % (1440 * 1440), 1440)
+            if k % 64 == 0 or phase == "again":
+                rep.tick("many-distinct", key=(s_, e_, phase), nontrivial=e_ <= s_, sample={"start": hhmm(s_), "end": hhmm(e_), "phase": phase})
+            got = calc(hhmm(s_), hhmm(e_))
+            if got != expected(s_, e_):
+                raise Violation(f"C14/duration-mismatch/after-many-distinct-pairs/{phase}", dict(case, failing={"start": s_, "end": e_, "k": k}),
+                                expected(s_, e_), got)
+            idx += step
+
+
 def body_objects(rep, case):
     """SwitcherSchedule objects report the duration of *their* times, also when the slot id was seen before with others."""
     from aioswitcher.schedule.parser import SwitcherSchedule
@@ -99,6 +142,10 @@ def subchecks(tier):
     subs = [Sub("rows", body_rows, cases=cases, shards=16, exhaustive=full),
             Sub("rows-other-host-zones", lambda rep, case: body_rows(rep, case, "rows-other-host-zones"), cases=zcases, shards=16)]
     subs.append(Sub("schedule-objects", body_objects, strategy=strat_objects, n=100_000 if full else 2500, shards=8 if full else 2))
+    subs.append(Sub("text-forms", body_forms, cases=cases_forms, shards=2, exhaustive=False))
+    subs.append(Sub("many-distinct", body_many_distinct, shards=2, exhaustive=False,
+                    cases=lambda: ([{"n": 70_000, "again": 6000}] if not full else
+                                   [{"n": 140_000, "again": 80_000}, {"n": 300_000, "again": 40_000, "offset": 12345, "step": 104_729}])))
     if not full:
         subs.append(Sub("pairs", lambda rep, case: body_rows(rep, case, "pairs"), strategy=strat_pairs, n=20000, shards=4))
     return subs
